@@ -112,7 +112,7 @@ func (c *Concretizer) node() string {
 func (c *Concretizer) predicate() string {
 	if c.Hostile {
 		return c.often(`"p"@[]`, `"q"@[`+T2+`]`, `"q"@[?t]`, `"p"@[junk]`, `"q"@["`+T2+`"]`, `"zz"@[]`, `"q"@[2020-01-01T02:00:00+02:00]`,
-			`"p q"@[]`, `"p"@[ ]`, `"é"@[]`)
+			`"p q"@[]`, `"p"@[ ]`, `"é"@[]`, `"p"@["]`)
 	}
 	return c.pick(`"p"@[]`, `"q"@[`+T2+`]`, `"q"@[?t]`)
 }
@@ -242,6 +242,48 @@ func (c *Concretizer) Texts(toks []Tok) []string {
 		}
 	}
 	return res
+}
+
+// HostileOptions lists the texts meant to break hooks, planner or executor for token i of toks (empty for
+// tokens rendered by a fixed word).  Used to put ONE hostile text at a time into an otherwise plain statement.
+func HostileOptions(toks []Tok, i int) []string {
+	p := ""
+	if i > 0 {
+		p = toks[i-1].K
+	}
+	timeCtx := p == "BEFORE" || p == "AFTER" || p == "BETWEEN" || p == "LT" || p == "GT" || p == "EQ"
+	switch toks[i].K {
+	case "LITERAL":
+		if p == "LIMIT" {
+			return []string{`"0"^^type:int64`, `"-1"^^type:int64`, `"1"^^type:INT64`, `"9223372036854775807"^^type:int64`, `"x"^^type:text`,
+				`"1.5"^^type:float64`, `"abc"^^type:int64`, `"-9223372036854775808"^^type:int64`, `"99999999999999999999"^^type:int64`}
+		}
+		return []string{`"x"^^type:text`, `"true"^^type:bool`, `"1.5"^^type:float64`, `"[1 2]"^^type:blob`, `"[]"^^type:blob`, `""^^type:blob`, `"1"^^type:INT64`,
+			`"x"^^TYPE:Text`, `"abc"^^type:int64`, `""^^type:text`, `"a\"b"^^type:text`, `"maybe"^^type:bool`, `"1e999"^^type:float64`, `"[x]"^^type:blob`,
+			`"-1"^^type:int64`, `"NaN"^^type:float64`, `"x"^^type:blob`}
+	case "NODE":
+		return []string{`/_<x>`, `/u<zz>`, `/<a>`, `/u/<a>`, `/u<a b>`, `/u<é>`, `/u<>`, `/u<a"b>`}
+	case "PREDICATE":
+		return []string{`"q"@[?t]`, `"p"@[junk]`, `"q"@["` + T2 + `"]`, `"zz"@[]`, `"q"@[2020-01-01T02:00:00+02:00]`, `"p q"@[]`, `"p"@[ ]`, `"é"@[]`, `""@[]`,
+			`"q"@[` + T2 + `]`, `"q"@[?]`, `"p"@["]`, `"p"@[""]`}
+	case "PREDICATE_BOUND":
+		if timeCtx {
+			return []string{T3 + "," + T1, T1 + ", " + T3, "1,2", T1 + ",", "," + T3}
+		}
+		return []string{`"q"@[,]`, `"q"@[` + T3 + `,` + T1 + `]`, `"q"@[?lo,?hi]`, `"q"@[` + T1 + `,]`, `"q"@[,` + T3 + `]`, `"q"@[x,y]`, `"q"@["` + T1 + `","` + T3 + `"]`,
+			`""@[,]`}
+	case "TIME":
+		return []string{"2020-13-45T00:00:00Z", "2020", "2020-01-01T02:00:00+02:00", "1", "0000-00-00T00:00:00Z"}
+	case "FILTER_FUNCTION":
+		return []string{"isTemporal", "isImmutable", "nosuch", "LATEST"}
+	case "BLANK_NODE":
+		return []string{"_:v", "_:w1"}
+	case "BINDING":
+		if strings.Contains(toks[i].Own, "GRAPHS") {
+			return []string{"?nograph", "?c", "?a"}
+		}
+	}
+	return nil
 }
 
 func (c *Concretizer) intn(n int) int {
